@@ -27,12 +27,11 @@ def repo_root():
 
 # ------------------------------------------------------------------ worker
 
-def _worker_main(conn, modname, job):
+def _run_one(modname, job):
     out = {'job': job, 'error': None}
     t0 = time.time()
     try:
-        sys.path.insert(0, VERIF)
-        import z3
+        import z3  # noqa
         from sea import core, instrument
         mod = importlib.import_module(modname)
         if job.get('kind') == 'validate':
@@ -53,60 +52,163 @@ def _worker_main(conn, modname, job):
                        cut_prefixes=E.cut_prefixes,
                        functions=sorted(f for f in instrument.RT.entered),
                        stubs=list(getattr(h, 'stubs', [])),
-                       assumptions=list(getattr(h, 'assumptions', [])),
+                       assumptions=list(getattr(h, 'assumptions', [])) + sorted(instrument.RT.assumed),
                        notes=list(getattr(h, 'notes', [])),
                        kept_queries=E.kept_queries[:4])
     except BaseException as e:  # includes Unsupported / Budget
         out['error'] = {'type': type(e).__name__, 'msg': str(e)[:2000],
                         'tb': traceback.format_exc()[-4000:]}
     out['wall_s'] = round(time.time() - t0, 2)
+    return out
+
+
+def _worker_main(conn, modname):
+    """pool worker: serves jobs of ONE obligation (same harness configuration)
+    until it is told to stop; python/z3/instrumentation start-up is paid once"""
+    _die_with_parent()
+    sys.path.insert(0, VERIF)
     try:
-        conn.send(out)
+        while True:
+            try:
+                job = conn.recv()
+            except EOFError:
+                break
+            if job is None:
+                break
+            conn.send(_run_one(modname, job))
     finally:
         conn.close()
 
 
-def run_jobs(modname, jobs, nproc=16, job_timeout_s=1800, log=print):
-    """Run jobs in fresh spawned processes; handles split_depth expansion."""
+def _die_with_parent():
+    """workers must never outlive the check process (an orphan would burn a
+    core for hours): poll the parent pid from a daemon thread"""
+    import threading
+    ppid = os.getppid()
+
+    def watch():
+        while True:
+            time.sleep(2)
+            if os.getppid() != ppid:
+                os._exit(9)
+    threading.Thread(target=watch, daemon=True).start()
+
+
+class _Worker:
+    def __init__(self, ctx, modname, key):
+        self.key = key
+        self.conn, child = ctx.Pipe(duplex=True)
+        self.p = ctx.Process(target=_worker_main, args=(child, modname), daemon=True)
+        self.p.start()
+        child.close()
+        self.job = None
+        self.t0 = None
+        self.served = 0
+
+    def give(self, job):
+        self.job = job
+        self.t0 = time.time()
+        self.served += 1
+        self.conn.send(job)
+
+    def stop(self, kill=False):
+        try:
+            if kill:
+                self.p.kill()
+            else:
+                self.conn.send(None)
+        except Exception:
+            pass
+        try:
+            self.p.join(0.2 if not kill else 5)
+            if self.p.is_alive():
+                self.p.kill()
+                self.p.join(5)
+        except Exception:
+            pass
+
+
+def _prepare(job):
+    # multi-level splitting: a job whose decision prefix is shorter than the
+    # next split depth only enumerates the prefixes up to that depth
+    splits = job.get('splits') or ([job['split_depth']] if job.get('split_depth') else [])
+    nxt = [d for d in splits if d > len(job.get('prefix') or [])]
+    job = {k: v for k, v in job.items() if k != 'depth_cut'}
+    if nxt:
+        job['depth_cut'] = nxt[0]
+    return job
+
+
+def run_jobs(modname, jobs, nproc=16, job_timeout_s=1800, log=print, max_served=40):
+    """Run jobs on a pool of spawned worker processes (each bound to one
+    obligation); handles the multi-level prefix splitting."""
     ctx = mp.get_context('spawn')
     pending = list(jobs)
-    running = []
+    workers = []
     results = []
-    while pending or running:
-        while pending and len(running) < nproc:
-            job = pending.pop(0)
-            if job.get('split_depth') and 'prefix' not in job and 'depth_cut' not in job:
-                job = dict(job, depth_cut=job['split_depth'])
-            pc, cc = ctx.Pipe(duplex=False)
-            p = ctx.Process(target=_worker_main, args=(cc, modname, job))
-            p.start()
-            cc.close()
-            running.append((p, pc, job, time.time()))
-        time.sleep(0.05)
-        still = []
-        for (p, pc, job, t0) in running:
-            res = None
-            if pc.poll():
+
+    def finish(w, res):
+        job = w.job
+        w.job = None
+        results.append(res)
+        if res.get('cut_prefixes') and job.get('depth_cut'):
+            base = {k: v for k, v in job.items() if k != 'depth_cut'}
+            for pre in res['cut_prefixes']:
+                pending.append(dict(base, prefix=pre))
+
+    try:
+        while pending or any(w.job is not None for w in workers):
+            # hand out work
+            progressed = True
+            while pending and progressed:
+                progressed = False
+                for idx, job in enumerate(pending):
+                    key = job['ob'] + '|' + str(job.get('kind', ''))
+                    w = next((x for x in workers if x.job is None and x.key == key and x.p.is_alive()), None)
+                    if w is None and len(workers) < nproc:
+                        w = _Worker(ctx, modname, key)
+                        workers.append(w)
+                    if w is None:
+                        idle = next((x for x in workers if x.job is None), None)
+                        if idle is not None and not any(j['ob'] + '|' + str(j.get('kind', '')) == idle.key for j in pending):
+                            idle.stop()
+                            workers.remove(idle)
+                            w = _Worker(ctx, modname, key)
+                            workers.append(w)
+                    if w is not None:
+                        pending.pop(idx)
+                        w.give(_prepare(job))
+                        progressed = True
+                        break
+            time.sleep(0.02)
+            for w in list(workers):
+                if w.job is None:
+                    continue
+                res = None
                 try:
-                    res = pc.recv()
-                except EOFError:
-                    res = {'job': job, 'error': {'type': 'WorkerDied', 'msg': 'no result', 'tb': ''}, 'wall_s': time.time() - t0}
-                p.join(5)
-            elif not p.is_alive():
-                res = {'job': job, 'error': {'type': 'WorkerDied', 'msg': 'exit code %s' % p.exitcode, 'tb': ''}, 'wall_s': time.time() - t0}
-            elif time.time() - t0 > job.get('job_timeout_s', job_timeout_s):
-                p.kill()
-                p.join(5)
-                res = {'job': job, 'error': {'type': 'Timeout', 'msg': 'job exceeded %ss' % job.get('job_timeout_s', job_timeout_s), 'tb': ''}, 'wall_s': time.time() - t0}
-            if res is None:
-                still.append((p, pc, job, t0))
-                continue
-            results.append(res)
-            if res.get('cut_prefixes') and job.get('depth_cut'):
-                base = {k: v for k, v in job.items() if k not in ('depth_cut', 'split_depth')}
-                for pre in res['cut_prefixes']:
-                    pending.append(dict(base, prefix=pre))
-        running = still
+                    if w.conn.poll():
+                        res = w.conn.recv()
+                except (EOFError, OSError):
+                    res = {'job': w.job, 'error': {'type': 'WorkerDied', 'msg': 'no result', 'tb': ''}, 'wall_s': time.time() - w.t0}
+                    w.stop(kill=True)
+                    workers.remove(w)
+                if res is None and not w.p.is_alive():
+                    res = {'job': w.job, 'error': {'type': 'WorkerDied', 'msg': 'exit code %s' % w.p.exitcode, 'tb': ''}, 'wall_s': time.time() - w.t0}
+                    if w in workers:
+                        workers.remove(w)
+                elif res is None and time.time() - w.t0 > w.job.get('job_timeout_s', job_timeout_s):
+                    res = {'job': w.job, 'error': {'type': 'Timeout', 'msg': 'job exceeded %ss' % w.job.get('job_timeout_s', job_timeout_s), 'tb': ''}, 'wall_s': time.time() - w.t0}
+                    w.stop(kill=True)
+                    if w in workers:
+                        workers.remove(w)
+                if res is not None:
+                    finish(w, res)
+                    if w in workers and w.served >= max_served:
+                        w.stop()          # bound memory growth of long-lived workers
+                        workers.remove(w)
+    finally:
+        for w in workers:
+            w.stop(kill=w.job is not None)
     return results
 
 
